@@ -53,7 +53,13 @@ def compare_trace(prop, trace, res_a, res_b, tally, stats):
         first, last = span
         c = k3_check.StepCmp(i, st, pre, res['float'][last], res['rat'][last], tally,
                              collect_hist(res['float'], first, last), collect_hist(res['rat'], first, last))
-        if prop in ('C01', 'C02', 'C03') and st['op'][0] in ('pfmark', 'pftxn', 'pfsub', 'pfwd') and st['out'] != res['float'][last].get('out'):
+        disagree = st['op'][0] in ('pfmark', 'pftxn', 'pfsub', 'pfwd') and st['out'] != res['float'][last].get('out')
+        if st['op'][0] == 'update' and res is res_b:
+            # mode B replays the recorded marks and fills: a recorded input the code accepted but the model refuses (or vice versa)
+            recorded = [x['ok'] for x in st['marks'] if x.get('held', True)] + [x['ok'] for x in st['txns']]
+            outs_b = [o.get('out') == 'ok' for o in res['float'][first + 2:last + 1]]
+            disagree = recorded[:len(outs_b)] != outs_b[:len(recorded)]
+        if prop in ('C01', 'C02', 'C03') and disagree:
             stats['validation_disagreement_skipped'] += 1      # accepted/refused differs: that is C15's finding
             pre = st['post']
             continue
